@@ -260,6 +260,67 @@ def path_reuse_case(args):
     return {"vio": vio}
 
 
+def rename_case(args):
+    """name / description assigned AFTER creation (any word over {N, D} up to length 3), on the three kinds of object a
+    process tensor can be written from: a SimpleProcessTensor that is exported afterwards, a FileProcessTensor opened
+    in write mode (filled before or after the assignments), and the file-backed result of pt_tempo_compute."""
+    creator, word = args
+    from oqupy.process_tensor import FileProcessTensor
+    src = build(("hand", "rank4", 2, True, 2, DT))
+    tmp = tempfile.mkdtemp(prefix="c16n_")
+    fn = os.path.join(tmp, "n.hdf5")
+    vio = []
+    try:
+        def fill(pt):
+            for k in range(len(src)):
+                pt.set_mpo_tensor(k, src.get_mpo_tensor(k, transformed=False))
+            for k in range(len(src) + 1):
+                pt.set_cap_tensor(k, src.get_cap_tensor(k))
+
+        if creator == "simple":
+            obj = src
+        elif creator.startswith("filewrite"):
+            obj = FileProcessTensor(mode="write", filename=fn, hilbert_space_dimension=2, dt=DT,
+                                    transform_in=src.transform_in, transform_out=src.transform_out,
+                                    name="initial name", description="initial description")
+            if creator == "filewrite-fill-first":
+                fill(obj)
+        else:
+            bath = oq.Bath(0.5 * M.SX, M.ohmic(alpha=0.3, temperature=0.3))
+            obj = oq.pt_tempo_compute(bath, 0.0, 2.4 * DT, oq.TempoParameters(dt=DT, epsrel=1e-7), process_tensor_file=fn,
+                                      progress_type="silent", name="initial name", description="initial description")
+        for i, w in enumerate(word):
+            if w == "N":
+                obj.name = f"name set at op {i}"
+            else:
+                obj.description = f"description set at op {i}\nsecond line"
+        if creator == "filewrite-fill-last":
+            fill(obj)
+        want = meta(obj)
+        if creator == "simple":
+            obj.export(fn)
+        else:
+            obj.close()
+        for typ in ("file", "simple"):
+            with warnings.catch_warnings(record=True) as wl:
+                warnings.simplefilter("always")
+                imp = oq.import_process_tensor(fn, typ)
+            got = meta(imp)
+            if typ == "file":
+                imp.close()
+            if any("corrupt" in str(w_.message) for w_ in wl):
+                vio.append((f"rename|{creator}|import-{typ}|corrupt-warning-on-clean-file", f"word {word}"))
+            for k in want:
+                if want[k] != got[k]:
+                    vio.append((f"rename|{creator}|import-{typ}|meta:{k}",
+                                f"after {word or 'no assignment'}: object had {k}={want[k]!r}, the import has {got[k]!r}"))
+    except Exception as ex:  # noqa
+        vio.append((f"rename|{creator}|exception:{type(ex).__name__}", f"word {word}: {ex}"[:160]))
+    finally:
+        shutil.rmtree(tmp, ignore_errors=True)
+    return {"vio": vio}
+
+
 def filebacked_case(kind):
     """PtTempo writing directly to a file vs the in-memory computation (gauge-invariant comparison)."""
     op = {"diag": 0.5 * M.SZ, "nondiag": 0.5 * M.SX, "nondiag-complex": 0.5 * M.SY + 0.2 * M.SX}[kind]
@@ -316,6 +377,13 @@ def run(tier, seed):
         trans += 6
         for cls, what in r["vio"]:
             rep.add(Violation(cls, what, {"part": "pathreuse", "args": list(j)}))
+    words = [w for L in range(0, 4) for w in itertools.product("ND", repeat=L)]
+    rj = [(c, w) for c in ("simple", "filewrite-fill-first", "filewrite-fill-last", "pttempo-file") for w in words]
+    rres = pmap(rename_case, rj, seed=seed)
+    for j, r in zip(rj, rres):
+        trans += len(j[1]) + 3
+        for cls, what in r["vio"]:
+            rep.add(Violation(cls, what, {"part": "rename", "args": [j[0], list(j[1])]}))
     kinds = ["diag", "nondiag", "nondiag-complex"]
     fres = pmap(filebacked_case, kinds, chunksize=1, seed=seed)
     for k, r in zip(kinds, fres):
@@ -325,12 +393,14 @@ def run(tier, seed):
     rep.coverage = {
         "states": len(specs) * len(set(h[:i + 1] for h in hs for i in range(len(h)))),
         "transitions": trans,
-        "traces_validated_against_impl": len(jobs) + len(kinds),
+        "traces_validated_against_impl": len(jobs) + len(kinds) + len(rj), "rename_histories": len(rj),
         "process_tensors": len(specs), "histories_per_pt": len(hs), "depth": depth,
         "exhaustive": True,
         "rule": "state = (process tensor of the alphabet, history prefix over {E export, IF import-as-file, IS import-as-simple, "
                 "C close}); all valid histories up to the depth are executed on real objects and files; oracle: bitwise equality "
-                "of all tensors and metadata after every import, identical results of every consumer at the end of the history",
+                "of all tensors and metadata after every import, identical results of every consumer at the end of the history; "
+                "rename: every word over {set name, set description} up to length 3 on 4 kinds of writable object, then "
+                "close/export and import both ways",
         "samples": [{"spec": list(jobs[(7 * seed) % len(jobs)][0]), "history": list(jobs[(7 * seed) % len(jobs)][1])},
                     {"spec": list(jobs[-1][0]), "history": list(jobs[-1][1])}],
     }
@@ -340,6 +410,9 @@ def run(tier, seed):
 
 
 def replay(rp):
+    if rp["part"] == "rename":
+        r = rename_case((rp["args"][0], tuple(rp["args"][1])))
+        return {"obs": r["vio"], "violation": r["vio"][0][0] if r["vio"] else None}
     if rp["part"] == "pathreuse":
         r = path_reuse_case(tuple(rp["args"]))
         return {"obs": r["vio"], "violation": r["vio"][0][0] if r["vio"] else None}
